@@ -918,7 +918,9 @@ class Engine:
         """bytes of one format argument -> (byte list, tainted?)"""
         d=deref(val)
         if kind=='debug':
-            if isinstance(d,(Str,StringO)) and not d.taint: return self.debug_str(run,d.b),False
+            # precise only where the text lands in a byte buffer (`write!(vec, "{:?}", s)`); in messages built with format!()
+            # the text is opaque (forking on every byte of every error message would explode decoders of untrusted bytes)
+            if getattr(run,'precise_debug',False) and isinstance(d,(Str,StringO)) and not d.taint and getattr(d,'is_str',True): return self.debug_str(run,d.b),False
             return list(b'<dbg>'),True
         if kind in ('lower_hex','upper_hex'):
             # {:x} / {:X} without width or fill (a template with a width uses opcodes the template decoder rejects as Unsupported)
